@@ -1,7 +1,7 @@
 (* Property C04 — DID document id-uniqueness (the deserialisation gate) holds across every
    mutation history.  Pinned statements only. *)
 From Coq Require Import List ZArith Bool.
-From IdV Require Import Doc.Doc Proofs.DocProofs.
+From IdV Require Import Doc.Doc Proofs.DocProofs Proofs.DocResolveProofs.
 Import ListNotations.
 Open Scope Z_scope.
 
@@ -36,6 +36,39 @@ Proof. exact detach_keeps. Qed.
 Theorem C04_refused_unchanged : forall d m s e, insert_method d m s = inr e -> dstep d (OInsM m s) = d.
 Proof. intros d m s e H. cbn. rewrite H. reflexivity. Qed.
 
+(* the gate the deserialiser really runs (the one-pass hash-map check of core_document.rs) IS the declarative gate *)
+Theorem C04_constraints_is_check : forall d, check_id_constraints d = check d.
+Proof. exact check_id_constraints_eq_check. Qed.
+(* OrderedSet uniqueness of the seven collections over EVERY operation sequence *)
+Theorem C04_sets_preserved : forall ops d, sets_ok d = true -> sets_ok (drun ops d) = true.
+Proof. exact drun_keeps_sets. Qed.
+(* hence what from_json accepts stays acceptable to from_json after EVERY operation sequence *)
+Theorem C04_accepted_preserved : forall ops d,
+  sets_ok d && check_id_constraints d = true -> sets_ok (drun ops d) && check_id_constraints (drun ops d) = true.
+Proof. exact drun_keeps_accepted. Qed.
+
+(* resolution refines the abstract set-of-entries model: for a document that passes the gate and a query
+   that does not hit two different identifiers (i.e. outside the known class K_path_ambiguous), the answer
+   is exactly THE entry that matches - in each scope *)
+Theorem C04_resolve_vm_scope : forall d q, SetsOk d -> unamb d q -> forall m,
+  resolve_method d q (Some SVm) = Some m <-> In m (d_vm d) /\ qmatches q (m_id m) = true.
+Proof. exact resolve_vm_scope. Qed.
+Theorem C04_resolve_rel_scope : forall d q, Gate d -> SetsOk d -> unamb d q -> forall r m,
+  resolve_method d q (Some (SRel r)) = Some m <->
+  qmatches q (m_id m) = true /\ (In (Embed m) (d_rels d r) \/ (In (Refer (m_id m)) (d_rels d r) /\ In m (d_vm d))).
+Proof. exact resolve_rel_scope. Qed.
+Theorem C04_resolve_no_scope : forall d q, Gate d -> SetsOk d -> unamb d q -> forall m,
+  resolve_method d q None = Some m <-> (In m (d_vm d) \/ In (Embed m) (entries d)) /\ qmatches q (m_id m) = true.
+Proof. exact resolve_no_scope. Qed.
+Theorem C04_resolve_service : forall d q, SetsOk d -> unamb d q -> forall s,
+  resolve_service d q = Some s <-> In s (d_svc d) /\ qmatches q (s_id s) = true.
+Proof. exact resolve_service_spec. Qed.
+Theorem C04_resolve_full_id : forall d u m sc, Gate d -> SetsOk d -> unamb d (query_of_url u) -> id_of d u ->
+  resolve_method d (query_of_url u) sc = Some m -> m_id m = u.
+Proof. exact resolve_full_id. Qed.
+Theorem C04_sets_ok_is_SetsOk : forall d, sets_ok d = true <-> SetsOk d.
+Proof. exact sets_ok_spec. Qed.
+
 (* the pinned tree's guard is refuted (finding F14, repaired by fix 20cadcc) *)
 Theorem C04_pinned_insert_refuted : exists d m s d',
   check d = true /\ insert_method_pinned d m s = inl d' /\ check d' = false.
@@ -51,3 +84,12 @@ Print Assumptions C04_attach_keeps.
 Print Assumptions C04_detach_keeps.
 Print Assumptions C04_refused_unchanged.
 Print Assumptions C04_pinned_insert_refuted.
+Print Assumptions C04_constraints_is_check.
+Print Assumptions C04_sets_preserved.
+Print Assumptions C04_accepted_preserved.
+Print Assumptions C04_resolve_vm_scope.
+Print Assumptions C04_resolve_rel_scope.
+Print Assumptions C04_resolve_no_scope.
+Print Assumptions C04_resolve_service.
+Print Assumptions C04_resolve_full_id.
+Print Assumptions C04_sets_ok_is_SetsOk.
